@@ -32,6 +32,7 @@ pub struct NodeSuite {
     nodes: std::collections::BTreeMap<u16, SimNode>,
     queue: Vec<(SocketAddr, SocketAddr, Vec<u8>)>,
     wire: Vec<(SocketAddr, SocketAddr, Vec<u8>)>,
+    marks: HashMap<String, usize>,
     now: Time,
     args: HashMap<u16, Vec<String>>,
 }
@@ -108,7 +109,7 @@ impl NodeSuite {
     pub fn new() -> Self {
         MockTimeSource::set_time(0);
         MockSocket::set_nat(false);
-        NodeSuite { keys: vec![], nodes: Default::default(), queue: vec![], wire: vec![], now: 0, args: HashMap::new() }
+        NodeSuite { keys: vec![], nodes: Default::default(), queue: vec![], wire: vec![], marks: HashMap::new(), now: 0, args: HashMap::new() }
     }
 
     fn state(&self, port: u16) -> String {
@@ -324,7 +325,13 @@ impl NodeSuite {
                 let (to, from, mut data, muts): (u16, SocketAddr, Vec<u8>, &[&str]) = if t[0] == "ninject" {
                     (t.get(1)?.parse().ok()?, parse_addr(t.get(2)?)?, unhex(t.get(3)?)?, &t[4..])
                 } else {
-                    let w: usize = t.get(1)?.strip_prefix('w')?.parse().ok()?;
+                    let w: usize = match t.get(1)?.strip_prefix("m:") {
+                        Some(name) => match self.marks.get(name) {
+                            Some(w) => *w,
+                            None => return Some("none-on-wire".to_string()),
+                        },
+                        None => t.get(1)?.strip_prefix('w')?.parse().ok()?,
+                    };
                     if w >= self.wire.len() {
                         return Some("none-on-wire".to_string());
                     }
@@ -336,6 +343,14 @@ impl NodeSuite {
                     mutate(&mut data, m)?;
                 }
                 Some(self.deliver(from, addr_of(to), data))
+            }
+            "nmark" => {
+                // nmark <name>: remember the datagram that was put on the wire last (for `nreplay m:<name> …`)
+                if self.wire.is_empty() {
+                    return Some("none-on-wire".to_string());
+                }
+                self.marks.insert(t.get(1)?.to_string(), self.wire.len() - 1);
+                Some("ok".to_string())
             }
             "nframe" => {
                 let i: u16 = t.get(1)?.parse().ok()?;
